@@ -94,3 +94,9 @@ Proof. repeat split; reflexivity. Qed.
 From SymfcG Require Import ShapesSumRule ShapesPerm SkelMat SkelPerm ShapesAuxEig SkelEig.
 Theorem c02_recorded_sources4_in_force : ShapesSumRule_as_recorded = true /\ ShapesPerm_as_recorded = true /\ SkelMat_as_recorded = true /\ SkelPerm_as_recorded = true /\ ShapesAuxEig_as_recorded = true /\ SkelEig_as_recorded = true.
 Proof. repeat split; reflexivity. Qed.
+
+(** The Symfc facade (the entry point through which every returned force constant and basis set of this property is obtained) is the
+    recorded source: whole-function and skeleton match, regenerated on every run. *)
+From SymfcG Require Import ShapesApi SkelApi.
+Theorem c02_facade_in_force : ShapesApi_as_recorded = true /\ SkelApi_as_recorded = true.
+Proof. repeat split; reflexivity. Qed.
